@@ -618,7 +618,8 @@ def _put(ex, p, m, a, func, fr):
     tr = target_ref(ex, p, r)
     b = ex.load(p.st, tr.base, tr.proj)
     k = INT_BITS[m.group(1)] // 8
-    v = a[1][0]
+    # a value the executor could not compute (opaque) is written as an arbitrary one (over-approximation)
+    v = fresh('opaque_put', z3.BitVecSort(8 * k)) if isinstance(a[1], Opaque) else a[1][0]
     arr = b.arr
     pos = b.off + b.len
     for t in range(k):
@@ -1116,6 +1117,20 @@ def _value_clone(ex, p, m, a, func, fr):
     if isinstance(v, Opaque):
         return None
     return one(v)
+
+
+@model(r'^<(?:\w+::)*\w+ as (?:std::cmp::)?PartialEq>::(eq|ne)$')
+def _enum_partial_eq(ex, p, m, a, func, fr):
+    # #[derive(PartialEq)] on a field-less enum compares discriminants
+    try:
+        x = ex.deref_all(p.st, a[0]) if isinstance(a[0], Ref) else a[0]
+        y = ex.deref_all(p.st, a[1]) if isinstance(a[1], Ref) else a[1]
+    except Inconclusive:
+        return None
+    if isinstance(x, Enum) and isinstance(y, Enum) and not any(x.payloads.values()) and not any(y.payloads.values()) and x.ename == y.ename and ex.prog.enum_info(x.ename):
+        eq = x.disc == y.disc
+        return one((eq if m.group(1) == 'eq' else z3.Not(eq), 'bool'))
+    return None
 
 
 @model(r'^core::slice::<impl \[(?!u8\])(.+)\]>::iter$')
